@@ -132,3 +132,12 @@ impl<K: VerifyingKey> VerifyingKey for RecordingVerifier<'_, K> {
         }
     }
 }
+
+impl<K: VerifyingKey + pgp::ser::Serialize> pgp::ser::Serialize for RecordingVerifier<'_, K> {
+    fn to_writer<W: std::io::Write>(&self, w: &mut W) -> pgp::errors::Result<()> {
+        self.key.to_writer(w)
+    }
+    fn write_len(&self) -> usize {
+        self.key.write_len()
+    }
+}
